@@ -775,10 +775,11 @@ func concat(a ...MalType) (MalType, error) {
 	if len(a) == 0 {
 		return List{}, nil
 	}
-	slc1, e := GetSlice(a[0])
+	slc0, e := GetSlice(a[0])
 	if e != nil {
 		return nil, e
 	}
+	slc1 := append([]MalType{}, slc0...)
 	for i := 1; i < len(a); i += 1 {
 		slc2, e := GetSlice(a[i])
 		if e != nil {
